@@ -206,6 +206,14 @@ func runC10(r *Run) {
 				}
 				v := c.Resolve(deref(ret.Results[idx]))
 				if c.NilState(v) == +1 {
+					// success: the transaction must still be somebody's to complete - not taken back by this call
+					for _, d := range dels {
+						key, pol := k.condKey(d)
+						if kv, known := c.Known(key); known && kv == pol && !rep[ret] {
+							rep[ret] = true
+							rb.ViolationPath(fn, instrPos(ret), "success after the rollback", "Start has itself removed the transaction from the client table (its delete found the entry) and then reports success: no event can reach the handler any more - it is never invoked, and a Do waits for it forever", c.Witness(fn, ret))
+						}
+					}
 					return
 				}
 				n++
@@ -323,6 +331,8 @@ func runC10(r *Run) {
 	do := r.Rule("C10.do", "Do waits on every path on which Start returned nil and on none on which it returned an error; the wait is a loop on the processed flag under the condition lock; the event handler runs the callback, then sets processed, then broadcasts, all under that lock", 3)
 	checkDo(r, do, m)
 	do.Done()
+	// a pooled transaction is released only by the party that owns it (shared with C12)
+	r.Borrow("C12", map[string]string{"C12.pool": "C10.pool"})
 }
 
 func checkCallbackPaths(r *Run, rc *RuleCtx, m *clientModel, k *keyer) {
